@@ -832,4 +832,41 @@ def bashCount (text : Bytes) : Nat := bashCountRec (text.length + 1) text
 def bashFields (text : Bytes) : List Bytes :=
   ((bashBraces text).map unescape).filter fun f => f ≠ []
 
+/-! ## Well-formed brace expressions (the class `bash_equiv_partial` covers) -/
+
+/-- Bytes that are never special to brace expansion, in Go or in bash. -/
+def safeByte (b : UInt8) : Bool :=
+  b ≠ cLB && b ≠ cRB && b ≠ cComma && b ≠ cDot && b ≠ cBS && b ≠ cDollar
+
+/-- A non-empty literal of safe bytes. -/
+def safeLit (v : Bytes) : Bool := !v.isEmpty && v.all safeByte
+
+/-- The elems of a sequence node as written `{a..b}` / `{a..b..c}`: single safe literals. -/
+def seqShape (elems : List Word) : Bool :=
+  elems.all fun e =>
+    match e with
+    | [.lit v] => safeLit v
+    | _ => false
+
+def headIsLit : List Part → Bool
+  | .lit _ :: _ => true
+  | _ => false
+
+mutual
+/-- Well-formed brace expression trees: literals are non-empty, made of safe bytes and never
+    adjacent; a list group has at least two alternatives (possibly empty ones); a sequence group
+    is `{x..y}` or `{x..y..z}` with endpoints that pass the validity test. -/
+def canonPart : Part → Bool
+  | .lit v => safeLit v
+  | .brace seq elems =>
+    if seq then seqValid elems && seqShape elems
+    else decide (2 ≤ elems.length) && canonElems elems
+def canon : List Part → Bool
+  | [] => true
+  | p :: ps => canonPart p && canon ps && !(p.isLit && headIsLit ps)
+def canonElems : List (List Part) → Bool
+  | [] => true
+  | e :: es => canon e && canonElems es
+end
+
 end ShVerif.C16
